@@ -514,7 +514,11 @@ fn tar_of(t: &TreeCase, tmp: &mut Option<std::path::PathBuf>) -> Result<Vec<u8>,
             modification_time: 1_700_000_000,
         },
     )
-    .map_err(|_| ())?;
+    .map_err(|e| {
+        if std::env::var_os("GIXV_DEBUG").is_some() {
+            eprintln!("tar error: {e:?}");
+        }
+    })?;
     Ok(out)
 }
 
@@ -769,7 +773,8 @@ fn files_of_tar(items: &[TarItem]) -> Files {
     let mut v: Files = items
         .iter()
         .filter(|i| i.typ == b'0' || i.typ == b'2')
-        .map(|i| (i.path.clone(), i.mode & 0o100 != 0, i.typ == b'2', if i.typ == b'2' { i.link.clone() } else { i.data.clone() }))
+        .map(|i| (i.path.clone(), i.typ != b'2' && i.mode & 0o100 != 0, i.typ == b'2', if i.typ == b'2' { i.link.clone() } else { i.data.clone() }))
+        // (the permission bits of a symlink mean nothing once extracted: git writes 0777, gix 0644)
         .collect();
     v.sort();
     v
@@ -812,7 +817,17 @@ fn prop(c: &Case) -> Verdict {
                     }
                 }
                 _ => match tar_of(&t, &mut tmp).ok().and_then(|b| read_tar(&b)) {
-                    None => Verdict::fail("tar-error", ""),
+                    None => {
+                        let mut all = Vec::new();
+                        for w in &want {
+                            all.push(w.path.clone());
+                        }
+                        if all.iter().any(|p| tar_path_hazard(p)) {
+                            Verdict::fail("tar-long-path-not-utf8", "gix_archive::write_stream failed")
+                        } else {
+                            Verdict::fail("tar-error", "")
+                        }
+                    }
                     Some(items) => {
                         let prefix: &[u8] = if t.via == 3 { b"p/" } else { b"" };
                         // every file of the tree once, then the extras
@@ -847,7 +862,19 @@ fn prop(c: &Case) -> Verdict {
                                     if gf == gotf {
                                         Verdict::ok(!wantf.is_empty(), "tar-vs-git-archive")
                                     } else {
-                                        Verdict::fail("tar-vs-git-archive", format!("git archive has {} files, gix {}", gf.len(), gotf.len()))
+                                        {
+                                        let d = gf.iter().zip(gotf.iter()).find(|(a, b)| a != b);
+                                        Verdict::fail(
+                                            "tar-vs-git-archive",
+                                            match d {
+                                                Some((a, b)) => format!(
+                                                    "git: {} x{} l{} {} | gix: {} x{} l{} {}",
+                                                    hexs(&a.0), a.1, a.2, digest(&a.3), hexs(&b.0), b.1, b.2, digest(&b.3)
+                                                ),
+                                                None => format!("git archive has {} files, gix {}", gf.len(), gotf.len()),
+                                            },
+                                        )
+                                    }
                                     }
                                 }
                                 None => Verdict::ok(!wantf.is_empty(), "tar"),
@@ -1211,6 +1238,10 @@ fn rand_link_target(rng: &mut Rng) -> Vec<u8> {
     t
 }
 
+fn tar_path_hazard(p: &[u8]) -> bool {
+    p.len() + 2 > 100 && (!p.is_ascii() || p.windows(2).any(|w| w == b".."))
+}
+
 fn rand_tree_case(rng: &mut Rng) -> TreeCase {
     let via = match rng.below(10) {
         0..=3 => 0,
@@ -1319,6 +1350,8 @@ fn rand_tree_case(rng: &mut Rng) -> TreeCase {
     for i in 0..nx {
         let kind = *rng.pick(b"BBXLTC");
         let src = if kind == b'T' && rng.chance(2, 3) { b'N' } else { *rng.pick(b"MMPPN") };
+        // the tar library refuses a symlink without a target
+        let src = if tar && kind == b'L' && src == b'N' { b'M' } else { src };
         let (raw, len) = if kind == b'L' {
             (rand_link_target(rng), 0)
         } else if src == b'P' && rng.chance(1, 2) && bigs < 3 {
@@ -1336,6 +1369,13 @@ fn rand_tree_case(rng: &mut Rng) -> TreeCase {
         }
         let oid = if rng.chance(1, 2) { vec![0; 20] } else { rng.bytes(20) };
         t.extras.push(Extra { path, kind, oid, src, raw, len });
+    }
+    // the tar library cuts a path longer than 100 bytes down to the longest valid UTF-8 prefix of its first 100 bytes
+    // for the header's name field and fails if nothing or a `..` component is left (see NOTES.md, known class
+    // tar-long-path-not-utf8): such trees are streamed, not archived
+    let tar = tar && !all.iter().any(|p| tar_path_hazard(p));
+    if !tar {
+        t.via = if t.via >= 2 { t.via - 2 } else { t.via };
     }
     t.sched = if tar { vec![] } else { rand_sched(rng) };
     t
